@@ -18,7 +18,6 @@ impl BuildNoHashHasher { pub fn default() -> BuildNoHashHasher { BuildNoHashHash
 pub struct Ptr { pub addr: usize }
 impl Ptr { pub fn addr_(self) -> (r: usize) ensures r == self.addr { self.addr } }
 impl NodeBytes {
-    pub uninterp spec fn blen(&self) -> usize;
     pub uninterp spec fn baddr(&self) -> usize;
     #[verifier::external_body]
     pub fn len(&self) -> (r: usize) ensures r == self.blen() { unimplemented!() }
@@ -68,12 +67,6 @@ impl RoaringBitmap {
     { unimplemented!() }
 }
 pub struct ImmutableLeafs { pub leafs: IntMap, pub constant_length: Option<usize>, pub _marker: core::marker::PhantomData<Dist> }
-
-/// every item leaf of the index has the same encoded length (they share the declared dimension; cf. fix of F6)
-pub open spec fn leaves_same_len(v: DbView, i: u16) -> bool {
-    forall|a: u32, b: u32, x: NodeBytes, y: NodeBytes| #![trigger x.aval(), y.aval(), ikey(i, a), ikey(i, b)]
-        v.contains_key(ikey(i, a)) && v.contains_key(ikey(i, b)) && x.aval() == v[ikey(i, a)] && y.aval() == v[ikey(i, b)] ==> x.blen() == y.blen()
-}
 
 impl ImmutableLeafs {
 //@extract src/parallel.rs | impl<'t, D: Distance> ImmutableLeafs<'t, D> | new
